@@ -3,12 +3,33 @@
 import json, os
 ROOT = os.path.dirname(os.path.dirname(os.path.abspath(__file__)))
 
+SESSION_NOTE = ("Trusted: Coq kernel, extraction+driver and harness for the correspondence. Model M2 assumes whole-packet never-blocking I/O "
+                "(discharged by C05/C06) and a protocol-conforming broker (Model.conforming); callbacks on_publish/on_connect do not raise; "
+                "API calls nested in callbacks are C18's subject.")
+SESSION_TECH = "Coq proof: relational invariant between an executable session model and a trace checker, by induction over all operation histories; model validated by differential execution against the real client"
+
 CLAIMED = {
+ "C01": dict(
+    text="Proof: for every configuration and every broker-conforming operation history (publishes while connected/offline/before CONNACK, acks in any order, stale/duplicate acks, connection failures anywhere incl. before CONNACK and repeatedly) the trace of the session model M2 satisfies c01_ok: owned until the final ack, completion (on_publish + published) exactly once and only in the operation processing that ack, and after every operation on an established connection every owned message was written on it or the window is full. M2 is tied to client.py by per-operation differential execution (events + internal state).",
+    ref="4.1", technique=SESSION_TECH, note=SESSION_NOTE),
+ "C02": dict(
+    text="Proof: for every conforming history, persistent session (also MQTT 5 FIRST_ONLY), no PUBLISH is written for a message past PUBREC, PUBREL is resent in the operation of every accepting CONNACK, DUP=1 iff the message's PUBLISH was written before, QoS 0 never DUP (checker c02_ok over the model trace).",
+    ref="4.2", technique=SESSION_TECH, note=SESSION_NOTE),
+ "C03": dict(
+    text="Proof: for ARBITRARY histories (no conformance hypothesis) and every configuration (manual ack, clean/persistent, raising callbacks, suppress_exceptions) the inbound-visible events of the model equal, operation by operation, the output of the abstract receiver spec_recv (state: map of half-received QoS 2 ids): exactly-once delivery at PUBREL, PUBREC/PUBCOMP always answered, PUBACK after the callback and never when its exception propagates, manual ack, clean session forgets / persistent keeps.",
+    ref="4.3", technique="Coq proof: refinement of the session model to an abstract receiver over all histories; differential execution against the real client",
+    note=SESSION_NOTE),
+ "C12": dict(
+    text="Proof: for every conforming history and every window/queue size the model trace satisfies c12_window_ok (written-and-unacknowledged QoS>0 messages on the current connection never exceed max_inflight) and c12_queue_ok (MQTT_ERR_QUEUE_SIZE exactly when max_queued messages are stored, nothing stored or sent); state theorem: on an established connection no message is queued while a slot is free. FIFO release is C13.",
+    ref="4.12", technique=SESSION_TECH, note=SESSION_NOTE),
+ "C13": dict(
+    text="Proof: for every conforming history, on each connection the first transmissions of messages accepted earlier occur in publish() order and so do the first PUBLISHes of messages accepted while it is open (checker c13_ok over the model trace); completeness of retransmission is C01.",
+    ref="4.13", technique=SESSION_TECH, note=SESSION_NOTE),
  "C14": dict(
     text="Proof: Coq theorems about mid_next (range, wrap 65535->1, closed form over any number of wraps, "
          "pairwise distinctness of 65535 consecutive allocations), with the source's _mid_generate translated on every run "
-         "and proved equal to the model (bridge lemma); Session-level no-share invariant; correspondence run against the real client.",
-    ref="4.14", technique="Coq proof (induction + lia) over a translated model; differential correspondence",
+         "and proved equal to the model (bridge lemma); session-level invariant: live messages never share an id, a publish whose fresh id is in use is refused and changes nothing; correspondence run against the real client.",
+    ref="4.14", technique="Coq proof (induction + lia) over a model translated from the source on every run; differential correspondence",
     note="Trusted: Coq kernel, py2v translator, harness. Thread-level exclusion (C14.3) rests on threading.Lock semantics; the threaded run is a test."),
 }
 PENDING = {}
